@@ -264,10 +264,10 @@ def effH_to_matrix_defect(H):
     return float(np.linalg.norm(dense - Md) / max(1.0, np.linalg.norm(dense)))
 
 
-def exact_ground_state(model, psi0, max_dim=5000):
+def exact_ground_state(model, psi0, max_dim=5000, all_sectors=False):
     """lowest energy and state in the charge sector of psi0 (ExactDiag), plus the gap to the next level"""
     from tenpy.algorithms.exact_diag import ExactDiag
-    charges = psi0.get_total_charge(True)
+    charges = None if all_sectors else psi0.get_total_charge(True)   # (diag_method='ED_all' may leave the sector)
     ed = ExactDiag(model, charge_sector=charges, max_size=2.e7)
     ed.build_full_H_from_mpo()
     ed.full_diagonalization()
@@ -325,7 +325,7 @@ def run_case(case):
     out['effH_at'] = rec.get('effH_at')
     out['effH_checked'] = rec.get('effH_checked', 0)
     psi0 = MPS.from_product_state(M.lat.mps_sites(), case['init'], bc=p['bc_MPS'])
-    E0, gs, ed, gap, dim = exact_ground_state(M, psi0)
+    E0, gs, ed, gap, dim = exact_ground_state(M, psi0, all_sectors=case['opts'].get('diag_method') == 'ED_all')
     out['E0'] = E0
     out['gap'] = gap
     out['dim'] = dim
